@@ -454,6 +454,15 @@ func roundTrip(c *fw.Ctx, r *rng.R, id string, i int) bool {
 		}
 	}
 	useLit := lit != nil && r.Chance(1, 3)
+	// where the value is kept: account and key of several shapes; a second entry, whose
+	// (account, key) is another split of the same colon-joined text, holds something else
+	acct := r.Pick("acc", "acc", "users:1234", "u:1", "a:b:c", "world:x")
+	key := r.Pick("k", "k", "limit", "1:k", "b:c", "", "k k")
+	acct2, key2, split := gen.Resplit(r, acct, key)
+	if !split || acct2 == acct {
+		acct2, key2 = "other", key
+	}
+	const decoy = "something else"
 	// script 1
 	sc1 := &gen.Script{}
 	vars1 := map[string]string{}
@@ -465,7 +474,7 @@ func roundTrip(c *fw.Ctx, r *rng.R, id string, i int) bool {
 		vars1["v"] = text
 	}
 	sc1.Stmts = []gen.Stmt{
-		&gen.Call{Name: "set_account_meta", Args: []gen.Expr{gen.A("acc"), gen.S("k"), val}},
+		&gen.Call{Name: "set_account_meta", Args: []gen.Expr{gen.A(acct), gen.S(key), val}},
 		&gen.Call{Name: "set_tx_meta", Args: []gen.Expr{gen.S("k"), val}},
 	}
 	cs1 := mkCase(sc1, vars1, nil)
@@ -488,7 +497,7 @@ func roundTrip(c *fw.Ctx, r *rng.R, id string, i int) bool {
 		c.Violation("write-fails", fmt.Sprintf("writing a %s value %q fails: %v", typ, text, o1.Err), input(nil))
 		return false
 	}
-	stored, has := o1.AcctMeta["acc"]["k"]
+	stored, has := o1.AcctMeta[acct][key]
 	if !has {
 		c.Violation("not-stored", "set_account_meta did not produce the entry", input(nil))
 		return false
@@ -503,15 +512,25 @@ func roundTrip(c *fw.Ctx, r *rng.R, id string, i int) bool {
 	}
 	// script 2: read back through meta() and through a plain variable
 	sc2 := &gen.Script{Vars: []*gen.VarDecl{
-		{Type: typ, Name: "w", Origin: &gen.Call{Name: "meta", Args: []gen.Expr{gen.A("acc"), gen.S("k")}}},
+		{Type: typ, Name: "w", Origin: &gen.Call{Name: "meta", Args: []gen.Expr{gen.A(acct), gen.S(key)}}},
 		{Type: typ, Name: "x"},
+		{Type: "string", Name: "d", Origin: &gen.Call{Name: "meta", Args: []gen.Expr{gen.A(acct2), gen.S(key2)}}},
 	}, Stmts: []gen.Stmt{
+		&gen.Call{Name: "set_tx_meta", Args: []gen.Expr{gen.S("from_other_entry"), gen.V("d")}},
 		&gen.Call{Name: "set_tx_meta", Args: []gen.Expr{gen.S("from_meta"), gen.V("w")}},
 		&gen.Call{Name: "set_tx_meta", Args: []gen.Expr{gen.S("from_var"), gen.V("x")}},
-		&gen.Call{Name: "set_account_meta", Args: []gen.Expr{gen.A("acc"), gen.S("k2"), gen.V("w")}},
+		&gen.Call{Name: "set_account_meta", Args: []gen.Expr{gen.A(acct), gen.S("k2"), gen.V("w")}},
 	}}
+	if r.Bool() {
+		// the other entry is read first
+		sc2.Vars[0], sc2.Vars[2] = sc2.Vars[2], sc2.Vars[0]
+	}
 	cs2 := mkCase(sc2, map[string]string{"x": stored}, nil)
-	cs2.Meta = map[string]map[string]string{"acc": {"k": stored}}
+	cs2.Meta = map[string]map[string]string{acct: {key: stored}}
+	if cs2.Meta[acct2] == nil {
+		cs2.Meta[acct2] = map[string]string{}
+	}
+	cs2.Meta[acct2][key2] = decoy
 	o2, ok := runCaseText(c, cs2)
 	if !ok {
 		return true
@@ -530,7 +549,12 @@ func roundTrip(c *fw.Ctx, r *rng.R, id string, i int) bool {
 		c.Violation("round-trip-value:"+typ, fmt.Sprintf("written %s; read back through meta(): %s; through a variable: %s", valueSig(v1), valueSig(a), valueSig(b)), input(ex))
 		return false
 	}
-	if again := o2.AcctMeta["acc"]["k2"]; again != stored {
+	if od := o2.TxMeta["from_other_entry"]; od == nil || od.String() != decoy {
+		c.Violation("other-entry-read", fmt.Sprintf("meta(@%s, %q) holds %q but the variable reading it has the value %s", acct2, key2, decoy, valueSig(od)), input(ex))
+		return false
+	}
+	c.Count("other_entries_read", 1)
+	if again := o2.AcctMeta[acct]["k2"]; again != stored {
 		c.Violation("text-not-fixed-point", fmt.Sprintf("stored %q, re-exported %q", stored, again), input(ex))
 		return false
 	}
